@@ -155,6 +155,21 @@ class KeyFacts:
             return [("SETVAR", it.id)]
         return []
 
+    def owner_alternatives(self, owner, at) -> list[str]:
+        """`tbl` bound by `for tbl in (left, right)` (loop or comprehension around `at`) -> ['left', 'right']; else [owner]"""
+        if not owner.isidentifier():
+            return [owner]
+        p = at
+        while p is not None and p is not parent(self.func):
+            gens = p.generators if isinstance(p, (ast.ListComp, ast.SetComp, ast.DictComp, ast.GeneratorExp)) else [p] if isinstance(p, ast.For) else []
+            for g in gens:
+                if isinstance(g.target, ast.Name) and g.target.id == owner and isinstance(g.iter, (ast.Tuple, ast.List)) and g.iter.elts and all(
+                    isinstance(e, ast.Name) for e in g.iter.elts
+                ):
+                    return [e.id for e in g.iter.elts]
+            p = parent(p)
+        return [owner]
+
     def _ann(self, name):
         f = self.func
         while f is not None:
@@ -170,10 +185,37 @@ class KeyFacts:
         return self._ann(name) == "Table"
 
     # -- set variables: `left_cols = set(left._cache.name_to_uuid.keys())` -------------------------
-    def setvar_meaning(self, name) -> tuple[str, str] | None:
+    def _assigned_values(self, name):
+        """expressions assigned to `name`, also through `a, b = (f(t) for t in (x, y))` / `a, b = f(x), f(y)`"""
+        import copy as _copy
+
         for n in ast.walk(self.func):
-            if isinstance(n, ast.Assign) and len(n.targets) == 1 and norm(n.targets[0]) == name:
+            if not (isinstance(n, ast.Assign) and len(n.targets) == 1):
+                continue
+            t = n.targets[0]
+            if norm(t) == name:
+                yield n.value
+            elif isinstance(t, (ast.Tuple, ast.List)) and name in [norm(e) for e in t.elts]:
+                i = [norm(e) for e in t.elts].index(name)
                 v = n.value
+                if isinstance(v, (ast.Tuple, ast.List)) and len(v.elts) == len(t.elts):
+                    yield v.elts[i]
+                elif isinstance(v, (ast.GeneratorExp, ast.ListComp)) and len(v.generators) == 1 and not v.generators[0].ifs:
+                    g = v.generators[0]
+                    if isinstance(g.target, ast.Name) and isinstance(g.iter, (ast.Tuple, ast.List)) and len(g.iter.elts) == len(t.elts):
+                        sub = g.iter.elts[i]
+                        elt = _copy.deepcopy(v.elt)
+                        var = g.target.id
+
+                        class _S(ast.NodeTransformer):
+                            def visit_Name(self, nd):
+                                return _copy.deepcopy(sub) if nd.id == var else nd
+
+                        yield _S().visit(elt)
+
+    def setvar_meaning(self, name) -> tuple[str, str] | None:
+        for v in self._assigned_values(name):
+            if True:
                 if isinstance(v, ast.Call) and dotted(v.func) == "set" and v.args:
                     a = v.args[0]
                     if isinstance(a, ast.Call) and isinstance(a.func, ast.Attribute) and a.func.attr == "keys":
@@ -257,34 +299,43 @@ def scan_k2(chk, rule, shorts, sym):
                 if name == "uuid_map":
                     continue  # K3 (producer / consumer), judged in C16
                 n += 1
-                dom = (MAPS[name][0], owner)
                 construct = f"{q}: {norm(node)[:90]}"
                 g = facts.guarded(node)
                 if g:
                     chk.ok(rule, mod, node, construct, g)
                     continue
                 keys = facts.key_set(node.slice, node)
-                proof = None
-                for ks in keys:
-                    if ks[0] == "SETVAR":
-                        meaning = facts.setvar_meaning(ks[1])
-                        cands = [meaning] if meaning else []
-                        for a, b in facts.equal_sets(node):
-                            other = b if a == ks[1] else a if b == ks[1] else None
-                            if other:
-                                m2 = facts.setvar_meaning(other)
-                                if m2:
-                                    cands.append(m2)
-                        for c in cands:
-                            if subset_ok(c, dom):
-                                proof = f"key ranges over `{ks[1]}` = {c[0]}({c[1]})"
-                        continue
-                    if subset_ok(ks, dom):
-                        proof = f"key in {ks[0]}({ks[1]}) <= {dom[0]}({dom[1]})" + (f" [{PRECONDITION_FIELDS[ks[0]]}]" if ks[0] in PRECONDITION_FIELDS else "")
-                        break
-                    if ks[0] in PRECONDITION_FIELDS and ks[1] == "self" and owner == "self" and (ks[0], dom[0]) in SUBSET:
-                        proof = f"key in {ks[0]} <= {dom[0]} [{PRECONDITION_FIELDS[ks[0]]}]"
-                        break
+
+                def prove(dom, owner=owner, keys=keys, node=node):
+                    proof = None
+                    # (a key known relative to the loop variable is known relative to the table it stands for)
+                    keys = [(k_[0], dom[1]) if k_[1] == owner else k_ for k_ in keys]
+                    for ks in keys:
+                        if ks[0] == "SETVAR":
+                            meaning = facts.setvar_meaning(ks[1])
+                            cands = [meaning] if meaning else []
+                            for a, b in facts.equal_sets(node):
+                                other = b if a == ks[1] else a if b == ks[1] else None
+                                if other:
+                                    m2 = facts.setvar_meaning(other)
+                                    if m2:
+                                        cands.append(m2)
+                            for c in cands:
+                                if subset_ok(c, dom):
+                                    proof = f"key ranges over `{ks[1]}` = {c[0]}({c[1]})"
+                            continue
+                        if subset_ok(ks, dom):
+                            return f"key in {ks[0]}({ks[1]}) <= {dom[0]}({dom[1]})" + (f" [{PRECONDITION_FIELDS[ks[0]]}]" if ks[0] in PRECONDITION_FIELDS else "")
+                        if ks[0] in PRECONDITION_FIELDS and ks[1] == "self" and owner == "self" and (ks[0], dom[0]) in SUBSET:
+                            return f"key in {ks[0]} <= {dom[0]} [{PRECONDITION_FIELDS[ks[0]]}]"
+                    return proof
+
+                # the owner may itself range over a literal tuple of tables (`for tbl in (left, right)`): the lookup is then
+                # one obligation per table
+                owners = facts.owner_alternatives(owner, node)
+                proofs = [prove((MAPS[name][0], o)) for o in owners]
+                dom = (MAPS[name][0], owner)
+                proof = "; ".join(proofs) if all(proofs) else None
                 if proof:
                     chk.ok(rule, mod, node, construct, proof)
                     continue
